@@ -108,6 +108,10 @@ def check(ctx, report):
     src = ast.unparse(hk.node)
     if 'base64.b64encode(self.key_bytes)' not in src:
         report.add('C16.R2', hk.construct + '@known_hosts', 'known_hosts is not base64(key_bytes)')
+    # ---- R5: the name-lists that are hashed are the wire name-lists (scanner of the text list machinery, shared with C07.R8)
+    report.rule('C16.R5', 'name-lists fed to hassh: split at commas, order kept, unknown names preserved one by one')
+    from ..textlists import string_array_table
+    string_array_table(ctx, report, 'C16.R5', 'ssh')
     # ---- R4: the blob that is hashed is the RFC 4253 / PROTOCOL.certkeys encoding (layout comparison shared with C07.R1)
     report.rule('C16.R4', 'composer of every host key / certificate class equals the specified key blob layout')
     from .. import speccheck
